@@ -181,6 +181,43 @@ pub fn run(ctx: &Ctx) -> CheckOutput {
             }));
         }
     }
+    // scale families: a run past 2^16 updates and a window past 2^8, the batch evaluation consulted at
+    // the boundary steps (it costs O(t) per step)
+    {
+        use Kind::*;
+        let e = Spec::echo;
+        let fam = |n: usize| -> Vec<Spec> {
+            vec![
+                Spec::un(SuperSmoother, n, e()),
+                Spec::un(LaguerreRsi, n, e()),
+                Spec::roofing(n, 3, e()),
+                Spec::with_ma(Eft, n, e(), Spec::un(Ema, 2, e())),
+                Spec::un(CyberCycle, n.max(6), e()),
+                Spec::un(TrendFlex, n, e()),
+                Spec::un(ReFlex, n, e()),
+                Spec::with_ma(Pfe, n, e(), Spec::un(Sma, 2, e())),
+            ]
+        };
+        let mut list: Vec<(&'static str, Spec, usize)> = vec![];
+        for s in fam(5) {
+            // (the batch form of EFT over an Ema is O(t^2); over an Sma it is O(t))
+            let s = if s.kind == Eft { Spec::with_ma(Eft, 5, e(), Spec::un(Sma, 3, e())) } else { s };
+            list.push(("long run", s, 66_000));
+        }
+        list.push(("long run", Spec::unp(LaguerreFilter, 0, vec![0.3], e()), 66_000));
+        for s in fam(300) {
+            list.push(("wide window", s, 620));
+        }
+        for (label, spec, len) in list {
+            let at = boundary_steps(len, spec.n.max(1), if len > 10_000 { if quick { 997 } else { 127 } } else if quick { 23 } else { 3 });
+            jobs.push(Box::new(move || {
+                let mut st = Stats::default();
+                let sink = Sink::new();
+                ref_drivers_sparse::<f64>("C11", &spec, &scale_drivers(len, spec.n.max(1)), &at, &mut st, &sink, &|h, hf, v, out| oracle::<f64>(&spec, h, hf, v, out));
+                JobOut { stats: st, viols: sink.take(), samples: vec![json!({"explorer":"LONG (sparse oracle)","scalar":"f64","view":spec.name(),"family":label,"steps":len,"judged_steps":at.len(),"drivers":4})] }
+            }));
+        }
+    }
     let o = run_jobs(jobs, ctx.seed);
     CheckOutput {
         stats: o.stats,
